@@ -1,7 +1,153 @@
 import CogentModel.Json
-open CogentModel
+import CogentModel.Model.IndelMap
+import CogentModel.Model.FMap
+import CogentModel.Spec.Gapped
+open CogentModel CogentModel.IndelMap
 
-def handle (cmd : String) (_j : J) : Except String J :=
-  throw s!"unknown command {cmd}"
+def errStr : Err → String
+  | .valueError => "ValueError"
+  | .indexError => "IndexError"
+  | .notImplemented => "NotImplementedError"
+  | .assertionError => "AssertionError"
+  | .runtimeError => "RuntimeError"
+
+def exJ {α} (f : α → J) : Except Err α → J
+  | .ok a => f a
+  | .error e => J.obj [("err", J.str (errStr e))]
+
+def intsJ (xs : List Int) : J := J.arr (xs.map J.num)
+def pairsJ (xs : List (Int × Int)) : J := J.arr (xs.map fun p => J.arr [J.num p.1, J.num p.2])
+def gappedJ (g : List (Option Nat)) : J := J.arr (g.map fun | none => J.null | some k => J.num k)
+
+def mapJ (m : IMap) : J :=
+  J.obj [("gp", intsJ m.gapPos), ("cum", intsJ m.cumLens), ("pl", J.num m.parentLength)]
+
+def spJ : Sp → J
+  | .span s e => J.arr [J.num s, J.num e]
+  | .lost n => J.arr [J.num n]
+
+def parseMap (j : J) : Except String IMap := do
+  pure ⟨← (← j.get "gp").toListOf J.toInt, ← (← j.get "cum").toListOf J.toInt, ← (← j.get "pl").toInt⟩
+
+def parsePairs (j : J) : Except String (List (Int × Int)) := j.toListOf (J.toPairOf J.toInt J.toInt)
+
+def parsePattern (j : J) : Except String (List Bool) := do
+  pure ((← j.toStr).toList.map (· == '1'))
+
+/-- everything observable about one map + the answers to the queries in `j` -/
+def observe (m : IMap) (j : J) : Except String J := do
+  let iv ← match j.get? "iv" with
+    | some x => x.toListOf (fun t => do
+        match ← t.toList with
+        | [a, b] => pure (← a.toOptInt, ← b.toOptInt, (none : Option Int))
+        | [a, b, c] => pure (← a.toOptInt, ← b.toOptInt, ← c.toOptInt)
+        | _ => throw "bad interval")
+    | none => pure []
+  let ai ← match j.get? "ai" with | some x => x.toListOf J.toInt | none => pure []
+  let si ← match j.get? "si" with | some x => x.toListOf (J.toPairOf J.toInt J.toBool) | none => pure []
+  pure (J.obj [
+    ("m", mapJ m), ("len", J.num (len m)),
+    ("spans", J.arr ((spans m).map spJ)),
+    ("abs", gappedJ (abs m)), ("abs_spans", gappedJ (absSpans m)),
+    ("coords", pairsJ (getCoordinates m)), ("nongap", pairsJ (nongap m)),
+    ("gapcoords", pairsJ (getGapCoordinates m)), ("gapalign", pairsJ (getGapAlignCoordinates m)),
+    ("rev", exJ mapJ (nucleicReversed m)),
+    ("get", J.arr (iv.map fun (a, b, c) => exJ mapJ (getitem m a b c))),
+    ("seq", J.arr (ai.map fun i => exJ J.num (getSeqIndex m i))),
+    ("aln", J.arr (si.map fun (i, st) => exJ J.num (getAlignIndex m i st)))])
+
+def fspJ : FMap.FSp → J
+  | .span s e r => J.arr [J.num s, J.num e, J.bool r]
+  | .lost n => J.arr [J.num n]
+
+def fmapJ (m : FMap.FM) : J := J.obj [("spans", J.arr (m.spans.map fspJ)), ("pl", J.num m.parentLength)]
+
+def ferrStr : FMap.FErr → String
+  | .valueError => "ValueError"
+  | .runtimeError => "RuntimeError"
+  | .assertionError => "AssertionError"
+  | .indexError => "IndexError"
+
+def fexJ {α} (f : α → J) : Except FMap.FErr α → J
+  | .ok a => f a
+  | .error e => J.obj [("err", J.str (ferrStr e))]
+
+def gappedJ' (g : List (Option Int)) : J := J.arr (g.map fun | none => J.null | some k => J.num k)
+
+def parseFSp (j : J) : Except String FMap.FSp := do
+  match ← j.toList with
+  | [n] => pure (.lost (← n.toInt))
+  | [s, e] => pure (.span (← s.toInt) (← e.toInt) false)
+  | [s, e, r] => pure (.span (← s.toInt) (← e.toInt) (← r.toBool))
+  | _ => throw "bad span"
+
+def parseFMap (j : J) : Except String FMap.FM := do
+  pure ⟨← (← j.get "spans").toListOf parseFSp, ← (← j.get "pl").toInt⟩
+
+def handle (cmd : String) (j : J) : Except String J :=
+  match cmd with
+  | "layout" => do
+    let s ← parsePattern (← j.get "s")
+    observe (fromGapped s) j
+  | "map" => do
+    match mk (← (← j.get "gp").toListOf J.toInt) (← (← j.get "cum").toListOf J.toInt) (← (← j.get "pl").toInt) with
+    | .error e => pure (J.obj [("err", J.str (errStr e))])
+    | .ok m => observe m j
+  | "binary" => do
+    let a ← parseMap (← j.get "a")
+    let b ← parseMap (← j.get "b")
+    match ← (← j.get "op").toStr with
+    | "add" => pure (exJ mapJ (add a b))
+    | "merge" => pure (exJ mapJ (mergeMaps a b (← (← j.get "pl").toOptInt)))
+    | "minus" => pure (exJ mapJ (minusGaps a b))
+    | "shared" => pure (exJ pairsJ (sharedGaps a b))
+    | o => throw s!"bad op {o}"
+  | "joined" => do
+    pure (exJ mapJ (joinedSegments (← parseMap (← j.get "m")) (← parsePairs (← j.get "coords"))))
+  | "mul" => do
+    pure (exJ mapJ (mul (← parseMap (← j.get "m")) (← (← j.get "k").toInt)))
+  | "from_segments" => do
+    pure (exJ mapJ (fromAlignedSegments (← parsePairs (← j.get "locs")) (← (← j.get "n").toInt)))
+  | "gap_coords" => do
+    pure (exJ mapJ (gapCoordsToMap (← parsePairs (← j.get "items")) (← (← j.get "n").toInt)))
+  | "coords_ops" => do
+    let a ← parsePairs (← j.get "a")
+    let b ← parsePairs (← j.get "b")
+    pure (J.obj [("minus", exJ pairsJ (coordsMinusCoords a b)), ("inter", exJ pairsJ (coordsIntersect a b))])
+  | "span_and_span" => do
+    match spanAndSpan (← (← j.get "a1").toInt) (← (← j.get "a2").toInt) (← (← j.get "b1").toInt) (← (← j.get "b2").toInt) with
+    | none => pure (J.obj [("err", J.str "ValueError")])
+    | some none => pure J.null
+    | some (some p) => pure (J.arr [J.num p.1, J.num p.2])
+  | "spec" => do
+    -- the Lean spec functions on a pattern, for validation against CPython string semantics
+    let s ← parsePattern (← j.get "s")
+    let g := Gapped.ofPattern s
+    let a ← (← j.get "a").toOptInt
+    let b ← (← j.get "b").toOptInt
+    pure (J.obj [("slice", gappedJ (Gapped.slice g a b)),
+      ("seq_index", J.arr ((List.range (g.length + 1)).map fun i => J.num (Gapped.seqIndex g i))),
+      ("align_index", J.arr ((List.range (Gapped.seqLen g)).map fun k => J.num (Gapped.alignIndex g k))),
+      ("reversed", gappedJ (Gapped.reversed g)),
+      ("runs", J.arr ((Gapped.gapRuns g).map fun p => J.arr [J.num p.1, J.num p.2]))])
+  | "fmap" => do
+    -- feature map algebra
+    let m ← parseFMap (← j.get "m")
+    let o ← match j.get? "o" with | some x => (do pure (some (← parseFMap x))) | none => pure none
+    pure (J.obj ([
+      ("len", J.num (FMap.len m)),
+      ("covered", fexJ fmapJ (FMap.covered m)),
+      ("inverse", fexJ fmapJ (FMap.inverse m)),
+      ("gaps", fexJ fmapJ (FMap.gaps m)),
+      ("shadow", fexJ fmapJ (FMap.shadow m)),
+      ("nongap", fexJ (fun l => J.arr (l.map fspJ)) (FMap.nongap m)),
+      ("rev", fexJ fmapJ (FMap.nucleicReversed m)),
+      ("cover", gappedJ' (FMap.cover m))] ++
+      (match o with
+       | some n => [("getitem", fexJ fmapJ (FMap.getitem m n))]
+       | none => [])))
+  | "from_locations" => do
+    pure (fexJ fmapJ (FMap.fromLocations (← parsePairs (← j.get "locs")) (← (← j.get "pl").toInt)))
+  | _ => throw s!"unknown command {cmd}"
 
 def main : IO Unit := driverLoop handle
